@@ -19,11 +19,14 @@ def maxOpt (sc : Scalar S) : List S → Option S
 def flipBody (sc : Scalar S) (isZero : S → Bool) (axis : Nat) (b : PBody S) : PBody S :=
   mkBody .numpy isZero b.fps (b.data.map (List.map (List.map fun pt => pt.mapIdx fun d x => if d = axis then sc.mul x (sc.neg (sc.ofNat 1)) else sc.mul x (sc.ofNat 1)))) b.conf (some b.missing)
 
+/-- the unmasked values of coordinate `d` of one frame and person, over the points (numbered from `s`) that pass the filter -/
+def obsPersonFrom [Inhabited S] (s d : Nat) (pointFilter : Nat → Bool) (pe : List (List S)) (mpe : List (List Bool)) : List S :=
+  (((pe.zip mpe).zipIdx s).filter fun (_, n) => pointFilter n).filterMap fun ((pt, mpt), _) =>
+    if mpt.getD d true then none else some (pt.getD d default)
+
 /-- the unmasked values of coordinate `d` over all frames, people and the given points -/
 def observedCoord [Inhabited S] (b : PBody S) (d : Nat) (pointFilter : Nat → Bool) : List S :=
-  (b.data.zip b.missing).flatMap fun (fr, mfr) => (fr.zip mfr).flatMap fun (pe, mpe) =>
-    ((pe.zip mpe).zipIdx.filter fun (_, n) => pointFilter n).filterMap fun ((pt, mpt), _) =>
-      if mpt.getD d true then none else some (pt.getD d default)
+  (b.data.zip b.missing).flatMap fun (fr, mfr) => (fr.zip mfr).flatMap fun (pe, mpe) => obsPersonFrom 0 d pointFilter pe mpe
 
 def numDimsBody (b : PBody S) : Nat := (((b.data.headD []).headD []).headD []).length
 
@@ -39,21 +42,25 @@ def focusBody (sc : Scalar S) (isZero : S → Bool) [Inhabited S] (b : PBody S) 
   let ext := List.zipWith sc.sub maxs mins
   some ({ b with data }, sc.ceilNat (ext.getD 0 sc.zero), sc.ceilNat (ext.getD 1 sc.zero), if D ≥ 3 then sc.ceilNat (ext.getD 2 sc.zero) else 0)
 
+/-- per-component offsets (running sums of the component sizes) -/
+def compOffs (sizes : List Nat) : List Nat := (sizes.foldl (fun (acc : List Nat × Nat) n => (acc.1 ++ [acc.2], acc.2 + n)) ([], 0)).1
+
+/-- the boxes of one frame and person: per component `(coordinates, per-dimension missing flags, confidence)` for the lower and the upper corner -/
+def bboxBoxes (sc : Scalar S) [Inhabited S] (sizes : List Nat) (D : Nat) (pe : List (List S)) (mpe : List (List Bool)) : List (List S × List Bool × S) :=
+  (sizes.zip (compOffs sizes)).flatMap fun (n, off) =>
+    let obs (d : Nat) : List S := (List.range n).filterMap fun j => if (mpe.getD (off + j) []).getD d true then none else some ((pe.getD (off + j) []).getD d default)
+    let lo := (List.range D).map fun d => minOpt sc (obs d)
+    let hi := (List.range D).map fun d => maxOpt sc (obs d)
+    let conf (l : List (Option S)) : S := if (l.headD none).isNone then sc.zero else sc.ofNat 1
+    [(lo.map (·.getD sc.zero), lo.map (·.isNone), conf lo), (hi.map (·.getD sc.zero), hi.map (·.isNone), conf hi)]
+
 /-- `bbox(header)`: per component two points — per-dimension min and max over the component's observed points, for every frame and person; the box is missing
     (confidence 0) when the component has no observed point there, confidence 1 otherwise. `sizes`: points per component. -/
 def bboxBody (sc : Scalar S) (isZero : S → Bool) [Inhabited S] (sizes : List Nat) (b : PBody S) : PBody S :=
   let D := numDimsBody b
-  let offs := (sizes.foldl (fun (acc : List Nat × Nat) n => (acc.1 ++ [acc.2], acc.2 + n)) ([], 0)).1
-  let boxes (pe : List (List S)) (mpe : List (List Bool)) : List (List S × List Bool × S) :=
-    (sizes.zip offs).flatMap fun (n, off) =>
-      let obs (d : Nat) : List S := (List.range n).filterMap fun j => if (mpe.getD (off + j) []).getD d true then none else some ((pe.getD (off + j) []).getD d default)
-      let lo := (List.range D).map fun d => minOpt sc (obs d)
-      let hi := (List.range D).map fun d => maxOpt sc (obs d)
-      let conf (l : List (Option S)) : S := if (l.headD none).isNone then sc.zero else sc.ofNat 1
-      [(lo.map (·.getD sc.zero), lo.map (·.isNone), conf lo), (hi.map (·.getD sc.zero), hi.map (·.isNone), conf hi)]
-  let data := (b.data.zip b.missing).map fun (fr, mfr) => (fr.zip mfr).map fun (pe, mpe) => (boxes pe mpe).map (·.1)
-  let mask := (b.data.zip b.missing).map fun (fr, mfr) => (fr.zip mfr).map fun (pe, mpe) => (boxes pe mpe).map (·.2.1)
-  let conf := (b.data.zip b.missing).map fun (fr, mfr) => (fr.zip mfr).map fun (pe, mpe) => (boxes pe mpe).map (·.2.2)
+  let data := (b.data.zip b.missing).map fun (fr, mfr) => (fr.zip mfr).map fun (pe, mpe) => (bboxBoxes sc sizes D pe mpe).map (·.1)
+  let mask := (b.data.zip b.missing).map fun (fr, mfr) => (fr.zip mfr).map fun (pe, mpe) => (bboxBoxes sc sizes D pe mpe).map (·.2.1)
+  let conf := (b.data.zip b.missing).map fun (fr, mfr) => (fr.zip mfr).map fun (pe, mpe) => (bboxBoxes sc sizes D pe mpe).map (·.2.2)
   mkBody .numpy isZero b.fps data conf (some mask)
 
 end PoseVerif
